@@ -174,6 +174,9 @@ func (x *Exec) Do(op Op) error {
 		x.Env.Stats.Add("op/edit", 1)
 	case "touch":
 		// a source edit that changes no declaration: the file as the CURRENT spec renders it, plus a comment
+		if op.K < 0 || op.K >= len(m.Pkgs) {
+			return infra("touch: no package %d", op.K)
+		}
 		p := m.Pkgs[op.K]
 		for fi, f := range p.Files {
 			if f.Name == op.Path {
@@ -188,6 +191,9 @@ func (x *Exec) Do(op Op) error {
 	case "retag":
 		// the tags of one declaration change in place (same line count, so no position moves); from
 		// now on the expectations follow the new spec
+		if op.K < 0 || op.K >= len(m.Pkgs) {
+			return infra("retag: no package %d", op.K)
+		}
 		p := m.Pkgs[op.K]
 		for fi, f := range p.Files {
 			var visit func(ds []*Decl) bool
